@@ -109,6 +109,14 @@ def stallOK (limit : Int) (start : Int) (progress : List Int) (fin : Option Int)
   | some f => silenceBounded limit start progress f
   | none => false
 
+/-- Pause clause: "a backend that merely pauses for less than the timeout is not cut off" — if the proxy
+    tore the upstream connection down on its own (no client abort, the backend had not finished), the
+    backend had been silent for at least `minSilence` (the read timeout minus measuring margin). -/
+def notCutOK (minSilence : Int) (lastProgress : Int) (cutAt : Option Int) : Bool :=
+  match cutAt with
+  | some t => decide (minSilence ≤ t - lastProgress)
+  | none => true
+
 /-- Cancellation clause: the backend saw its connection torn down within `limit` of the client's abort. -/
 def abortOK (limit : Int) (abortAt : Int) (torn : Option Int) : Bool :=
   match torn with
